@@ -77,7 +77,7 @@ def corpus_sources():
         if key in seen: continue
         seen.add(key)
         if any(m.encoded_as for m in deriveg.all_members(d)): continue
-        if d.crate or d.via_macro: continue
+        if d.crate or d.via_macro or d.extra_derives: continue
         defs.append(d)
     docsy = [d for d in defs if any('doc' in o or 'capture' in o for o in d.overlays)]
     plain = [d for d in defs if d not in docsy]
